@@ -121,7 +121,7 @@ PROPS = {
                  "Binders::identity_substitution, the derived and hand-written TypeFoldable impls they drive.",
         "bounds": "class-partitioned: skeleton (depth <= 3 constructors), variable depths in {0,1,2}, shift amount k in "
                   "{1,2} fixed per query; symbolic inside a query: every index within a binder (full usize), ids, "
-                  "mutabilities, scalars, ABI/safety/variadic, clause priority; unwind 8 with unwinding assertions",
+                  "ids (mutabilities, scalars, fn signatures and clause priorities are concrete: a symbolic field-less enum nested below a list makes the query not finish); unwind 8 with unwinding assertions",
         "outside": "deeper or wider terms; depth and shift amount as symbolic values (probe P28 does not finish); "
                    "goals of the form T: Trait (DomainGoal::Holds is opaque to CBMC's constant propagation, vinterner "
                    "layout notes) - WellFormed(T: Trait) goals and clause heads stand in for them; Implies goals",
